@@ -189,6 +189,42 @@ def rule_fwd(env, shared):
                 continue
             out.append(Ob("FWD", key, "ok", loc, "forwards to inner `%s`, result: %s" % (want_name, shape), True))
             shapes.setdefault(mname + "@" + what + "@" + tr.split("::")[-1], {})[nm] = _norm_shape(shape)
+    # FWD.cover: a trait method with a default body that a base implementor overrides must be forwarded by the adaptors too —
+    # the default is written against the shared counter only and knows nothing of what the override does (the end flag of
+    # the wrapper, the dropping of skipped elements, the exhaustion guards)
+    for tr in (R.T_ATOMIC, R.T_CON):
+        t_ = F.traits.get(tr)
+        if not t_:
+            continue
+        for it in t_["items"]:
+            if not it["kind"].startswith("Fn"):
+                continue
+            mname = it["name"]
+            overriding = []
+            for adt, r in R.impl.items():
+                if r["kind"] == "adaptor":
+                    continue
+                i = F.trait_impls.get((tr, adt))
+                if i and isinstance(i["items"].get(mname), dict):
+                    overriding.append(r["name"])
+            for adt in R.adaptors:
+                i = F.trait_impls.get((tr, adt))
+                if not i:
+                    continue
+                own = i["items"].get(mname)
+                if own != "default":
+                    continue
+                k = "FWD.cover|%s|%s::%s" % (R.impl[adt]["name"], tr.split("::")[-1], mname)
+                dd = F.trait_default(tr, mname)
+                # defaults that are themselves written in terms of other (forwarded) methods of Self only are fine when no
+                # base implementor overrides them
+                if overriding:
+                    out.append(Ob("FWD.cover", k, "viol", "-",
+                                  "%s does not forward `%s` although %s override(s) it: through the adaptor the trait's default "
+                                  "body runs instead of the underlying iterator's own implementation" % (
+                                      R.impl[adt]["name"], mname, ", ".join(overriding))))
+                else:
+                    out.append(Ob("FWD.cover", k, "ok", "-", "no base implementor overrides the default `%s`" % mname))
     # the two adaptors agree method by method
     names = [R.impl[a]["name"] for a in R.adaptors]
     if len(names) == 2:
@@ -720,12 +756,21 @@ def rule_siblings(env, shared):
             if x[0] == "fnref":
                 return ("fnref", x[1].split("<")[0].replace(adt, "X"))
             return None
+        def g0(x):
+            # `c.then_some(v)` is None or Some(v), like the match it replaces (the condition is judged by ENDGUARD / COMPLETE)
+            if x[0] == "call" and x[1] == "bool::then_some" and len(x[2]) == 2:
+                return ("phi", (("agg", "std::option::Option::None", ()), ("agg", "std::option::Option::Some", (x[2][1],))))
+            return None
         def g(x):
             # the order of the alternatives of a phi is an artefact of the control-flow layout (if/else vs match)
             if x[0] == "phi":
-                return ("phi", tuple(sorted(x[1], key=lambda y: fmt(y))))
+                from terms import mk_phi
+                flat = mk_phi(list(x[1]))
+                if flat[0] != "phi":
+                    return flat
+                return ("phi", tuple(sorted(flat[1], key=lambda y: fmt(y))))
             return None
-        return fmt(r_m1.rewrite(r_m1.rewrite(m.canon(t), f), g)).replace(adt, "X").replace(r["name"], "X")
+        return fmt(r_m1.rewrite(r_m1.rewrite(r_m1.rewrite(m.canon(t), f), g0), g)).replace(adt, "X").replace(r["name"], "X")
 
     groups = {}
     known = [a for a, r in R.impl.items() if r["kind"] == "known"]
